@@ -32,7 +32,12 @@ QUERIES = ["{f}(@)", "{f}(a, b)", "{f}(&a, @)", "{f}()", "{f}(`1`, 'x')", "{f}({
            "{f}(`[[null],[1]]`)", "{f}(`[[1],2]`)", "{f}(`[]`)", "{f}(`[[\"a\"]]`, `[1]`, `2`)",
            # calls inside the expression reference of a higher-order builtin use the same registry as everything else
            "max_by(@, &{f}(@))", "min_by(a, &{f}(@))", "sort_by(@, &{f}(@).id)", "map(&{f}(@), @)", "max_by(`[1,2]`, &{f}(@).id)",
-           "min_by(`[1,2]`, &{f}(@).id)", "map(&{f}(@).id, `[1,\"a\"]`)", "sort_by(`[\"b\",\"a\"]`, &{f}(@).args[0])"]
+           "min_by(`[1,2]`, &{f}(@).id)", "map(&{f}(@).id, `[1,\"a\"]`)", "sort_by(`[\"b\",\"a\"]`, &{f}(@).args[0])",
+           # every kind of expression as an argument (each is evaluated against the current node, in source order): bare indexes from either end,
+           # slices, projections, flatten, multi-selects, boolean forms, comparisons, pipes, parentheses, filters
+           "{f}([-1])", "{f}([0], [-2])", "{f}(@[-1], [-1])", "{f}([1:])", "{f}([::-1], [0])", "{f}([*])", "{f}([])", "{f}([*].a, [-1].a)",
+           "{f}(!a, !@)", "{f}(a || b, a && b)", "{f}(a == b, @ == @)", "{f}([a, b], {{x: a}})", "{f}((a), (@))", "{f}([?a])", "{f}(a | b, @ | [0])",
+           "{f}([-1], [-2], [-3], [0], [1])", "[*].{f}([-1], @)", "a | {f}([-1])", "{f}(a[-1], b[0], [-1][-1])", "{f}(`[1,2,3]`[-1], 'x')"]
 
 
 # the harness's signature menu, restated for the checker-side guard oracle: (declared types, variadic type)
@@ -90,6 +95,8 @@ def gen(ctx):
             f = rng.choice(reg) if reg and rng.random() < 0.6 else rng.choice(NAMES + ["nope"])
             qs.append(rng.choice(QUERIES).format(f=f, g=rng.choice(reg) if reg and rng.random() < 0.5 else rng.choice(NAMES)))
         doc = G.rand_doc(rng, 2)
+        if rng.random() < 0.35:      # array documents, so that indexes / slices / projections used as arguments select something
+            doc = "[ " + " ".join(G.rand_doc(rng, 1) for _ in range(rng.randrange(1, 5))) + " ]"
         cases.append((ops, doc, qs))
     return cases
 
